@@ -67,7 +67,7 @@ Print Assumptions C05_candidate_feasible.
 
 Theorem C05_candidate_refines : forall lsq hyp dev g st vmin_o vmax_o adjust c, lsq_spec lsq -> located g c ->
   length (d_pos c) = g_dim g ->
-  (exists vmin vmax, levels vmin_o vmax_o st = Some (vmin, vmax) /\ (adjust = false \/ vmin < vmax)) ->
+  (adjust = false \/ level_min vmin_o st < level_max vmax_o st) ->
   exists r, refine lsq hyp dev g st vmin_o vmax_o adjust c = ROk r.
 Proof. exact candidate_refines. Qed.
 Print Assumptions C05_candidate_refines.
